@@ -24,18 +24,21 @@ LEVEL = 'exploration'
 
 # ------------------------------------------------------------------ configuration pool
 # (password, [actions]); quick uses the first 4 lines, thorough all 9.  Every performed shutdown costs an instance restart
-# (~5 s), which is why `none shutdown` and the extra spellings of the shutdown URL are left to the thorough tier.
+# (~5 s and much more on a loaded machine), which bounds how often shutdown may be permitted inside the space.
 PASSWD_POOL = [
     ('secret', ['info']),
     ('disable', ['shutdown']),
     ('none', ['menu']),
     ('secret', ['all']),
     ('other', ['shutdown']),
-    ('none', ['shutdown']),
+    ('none', ['config']),
     ('disable', ['info']),
     ('disable', ['all']),
     ('secret', ['shutdown', 'menu']),
 ]
+# `none` on an action that kills Squid is only enumerated as a single-line list (8 credential forms x allowed addresses = up
+# to 16 restarts per configuration); inside the pool `none config` exercises `none` on a password-requiring action instead
+EXTRA_LISTS_THOROUGH = [[('none', ['shutdown'])]]
 # http_access sections over the built-in ACLs manager / localhost / all
 ACCESS = {
     'H1': [('allow', ['localhost', 'manager']), ('deny', ['manager']), ('allow', ['all'])],
@@ -184,6 +187,8 @@ def req_key(r):
 def config_space(tier):
     pool = PASSWD_POOL[:QUICK_POOL] if tier == 'quick' else PASSWD_POOL
     lists = [[]] + [[a] for a in pool] + [[a, b] for a in pool for b in pool if a is not b]
+    if tier != 'quick':
+        lists += EXTRA_LISTS_THOROUGH
     space = [(l, h) for l in lists for h in (('H1', 'H2') if tier == 'quick' else ('H1', 'H2', 'H3'))]
     # scheduling only: shards get the configurations round-robin, and every performed shutdown costs an instance restart, so
     # order the list by an upper estimate of that cost to balance the shards
@@ -211,7 +216,7 @@ class MWorld:
 
     def start(self, cfg):
         self.drop()
-        for attempt in range(3):
+        for attempt in range(5):
             self.sq = ls.Squid(self.ctx, self.name, self.pb, conf=conf_text(*cfg), default_acl=False)
             try:
                 self.sq.start()
@@ -219,7 +224,7 @@ class MWorld:
             except HarnessError as e:
                 # on an overloaded machine the (real-time) 60 s start-up allowance of the engine can expire
                 self.sq.cleanup()
-                if attempt == 2 or 'not ready after' not in str(e):
+                if attempt == 4 or 'not ready after' not in str(e):
                     raise
         self.starts += 1
         self.cfg = cfg
@@ -518,7 +523,7 @@ def make_worker(ctx):
                         res['performed_by_action'][a] = res['performed_by_action'].get(a, 0) + 1
                     if t[2]:
                         res['shutdowns'] += 1
-                if len(res['samples']) < 2 and n % 3 == 1:
+                if len(res['samples']) < 2 and (n == 0 or n % 3 == 1):
                     res['samples'].append({'config': cfg_key(cfg),
                                            'performed': [req_key(r) + ' -> ' + c for r, c in zip(REQUESTS, classes) if c.startswith('performed')][:5],
                                            'refused': [req_key(r) + ' -> %s' % t[0] for r, t in zip(REQUESTS, tr) if t[0] in (401, 403)][:3]})
